@@ -42,8 +42,11 @@ claim('C10', 'proof',
 claim('C15', 'proof',
       '`DNAGenerator.recover` carries the loop invariant "after i records the counters equal those of the live run after the same i events" '
       '(INV-init / INV-step discharged for histories of any length, hence every crash point); `propose`/`feedback` count exactly once, and a feedback that is refused or whose algorithm-specific part raises is not counted; '
-      'Sweeping `_propose`/`_replay` and seeded Random `_propose`/`_replay` are step-equivalent (same successor call, exactly one rng draw).',
-      'Trusted: engine; subclasses\' `_replay`/`_feedback` do not touch the base counters (A-SUBTYPE). Deduping and the Evolution family are covered by '
+      'Sweeping `_propose`/`_replay` and seeded Random `_propose`/`_replay` are step-equivalent (same successor call, exactly one rng draw). '
+      'De-duplication memory: `Deduping._feedback` (live) and `Deduping._replay` (recovery) are step-equivalent -- each hands (dna, reward) to `_add_dna_to_cache` exactly once, '
+      'unconditionally, looks at the memory in no other way, and delegates once to the inner algorithm (`feedback` / `_replay`); `_add_dna_to_cache` appends the reward to the entry of the '
+      'DNA\'s dedup key and leaves every other entry untouched (cache shapes: empty / key present with 1, 2, 3 rewards / another key present; rewards symbolic).',
+      'Trusted: engine; subclasses\' `_replay`/`_feedback` do not touch the base counters (A-SUBTYPE). `Deduping._propose` (attempt loop, automatic reward) and the Evolution family are covered by '
       'the bounded tier only (all crash points of short runs).',
       'contract-based deductive verification (pyvc loop invariants, relational step contracts) + bounded stand-in', 'DESIGN.md 5/C15')
 claim('C17', 'proof',
@@ -192,7 +195,10 @@ claim('C13', 'proof',
 claim('C18', 'proof',
       'NARROW proof kernel: `Signature.get_value_spec` -- the lookup every functor call uses to decide whether a keyword names a parameter -- returns, for '
       'signatures of any size, the value spec of the first declared parameter of that name, else the value spec of **kwargs if there is one, else None (in '
-      'particular the name of *args is not a keyword parameter): 1 unbounded obligation. Construction-time binding of `Functor.__init__` is executed symbolically '
+      'particular the name of *args is not a keyword parameter): 1 unbounded obligation. Late binding: `Functor._on_change` (run after every rebind / attribute assignment) '
+      'adds the argument to `_specified_args` -- the set a call replays -- whatever its value, also when it compares equal to the default (True == 1), drops it exactly when the new '
+      'value is the missing marker, moves it between the default / non-default books by the comparison with the field default, and touches no book for a change below an '
+      'argument (the two comparisons are independent Boolean unknowns): 4 unbounded obligations. Construction-time binding of `Functor.__init__` is executed symbolically '
       'against a specification of Python\'s binding rule (positional i binds parameter i; surplus positionals go to *args or raise TypeError; a keyword naming a '
       'bound parameter raises TypeError; the symbolic constructor receives exactly that binding) for every signature shape with <= 3 positional parameters (+- *args), '
       '<= 4 positional and <= 2 keyword arguments, values symbolic: 300 obligations, all discharged, but with a stated bound on the signature size, so they are a '
